@@ -75,6 +75,7 @@ def _skip_angle(s, i):
     return n
 
 
+_WRAPPER_TY = re.compile(r'^(std::mem::ManuallyDrop<|std::mem::MaybeDangling<|std::ptr::Unique<|std::ptr::NonNull<|std::mem::MaybeUninit<|core::mem::ManuallyDrop<)')
 _IMPL_AT = re.compile(r'<impl at ([^:>]+):(\d+):(\d+): (\d+):(\d+)>')
 
 
@@ -682,8 +683,16 @@ class Interp:
             fr.locals[place.local] = st.alloc(UNINIT)
         cell = fr.locals[place.local]
         path = ()
+        prev_wrapper = False
         for pr in place.proj:
             k = pr[0]
+            if k == 'field':
+                # std wrapper types that are transparent in this value model (Box internals, MaybeUninit, ManuallyDrop ...)
+                is_wrapper = _WRAPPER_TY.match(pr[2]) is not None
+                if is_wrapper or prev_wrapper:
+                    prev_wrapper = is_wrapper
+                    continue
+            prev_wrapper = False
             if k == 'deref':
                 v = self.read(st, cell, path)
                 if isinstance(v, Ref):
